@@ -124,7 +124,7 @@ def rule_span(E, R):
     R.floor(rule, "ParseError::new call sites", len(callers), 2)
     for hb, c in callers:
         p = norm(hb["path"]).split("::{closure")[0]
-        R.check(p in ok_names and local_name(c["args"][0]) == "input", rule, p,
+        R.check(p in ok_names and is_param(c["args"][0], hb, 1), rule, p,
                 "ParseError::new receives the function's own `input`", where=c["sp"])
     for fn in ok_names:
         h = E.hir(fn)
@@ -133,7 +133,7 @@ def rule_span(E, R):
             continue
         lx = [c for c in exprs(h["body"], "MethodCall") if c["m"] == "lex_as"]
         ok = len(lx) == 1 and strip(lx[0]["args"][0]).get("k") == "MethodCall" and strip(lx[0]["args"][0])["m"] == "trim" and \
-            local_name(strip(lx[0]["args"][0])["recv"]) == "input"
+            is_param(strip(lx[0]["args"][0])["recv"], h, 1)
         R.check(ok, rule, fn, "the text that is lexed is `input.trim()` - a sub-slice of the reported input", where=h["span"])
         cp = [c for c in exprs(h["body"], "Call") if norm(c.get("callee", "")) == "lex::complete"]
         R.check(len(cp) == 1, rule, fn, "trailing input is rejected by complete()", where=h["span"])
@@ -158,7 +158,7 @@ def run(F, R, tier):
     rule_span(E, R)
     rule_slice(E, R)
     rule_panic(G, E, R)
-    R.not_decided += ["the arithmetic behind three reviewed slice bounds in ParseError::new (frozen exceptions of R05-slice)",
+    R.not_decided += ["the pointer-difference arithmetic behind the span offset in ParseError::new (reviewed exception of R05-slice)",
                       "progress of every lexer loop (termination)", "arithmetic inside ParseError::new / Display",
                       "stack size in bytes"]
     R.assumptions += ["calls through dyn FunctionDefinition (context, check_param, return_type, arg_count) go to user code and are not followed"]
@@ -167,12 +167,26 @@ def run(F, R, tier):
 # ----------------------------------------------------------------------------------------------
 # R05-slice: every `str` slice bound is a char boundary by construction (slicing off a boundary panics)
 
-SLICE_EXCEPTIONS = {
-    # (function, local used as bound): reason — reviewed by reading; the computation itself is not re-derived
-    ("ast::parse::ParseError::new", "span_start"): "byte offset of `span` inside `input` (pointer difference; asserted to lie inside the input)",
-    ("ast::parse::ParseError::new", "line_start"): "position after a '\\n' found by match_indices (1-byte char)",
-    ("ast::parse::ParseError::new", "line_end"): "position of '\\n' returned by str::find",
+# functions in which a byte offset obtained as the difference of two `str::as_ptr()` addresses is accepted as a slice
+# bound: reviewed by reading (the span is asserted to lie inside the input); the arithmetic itself is not re-derived
+POINTER_DIFF_REVIEWED = {
+    "ast::parse::ParseError::new": "byte offset of `span` inside `input` (pointer difference; asserted to lie inside the input)",
 }
+
+
+def _is_addr(hb, e, depth=0):
+    """e is `<str>.as_ptr() as usize`, possibly through immutable lets"""
+    e = strip(e)
+    if depth > 4:
+        return False
+    if e.get("k") == "Cast":
+        i = strip(e["e"])
+        return i.get("k") == "MethodCall" and i["m"] == "as_ptr" and "str" in norm(i["recv"].get("ty", ""))
+    nm = local_name(e)
+    if nm:
+        ini = let_init(hb["body"], nm)
+        return ini is not None and _is_addr(hb, ini, depth + 1)
+    return False
 
 
 def _is_str_ty(t):
@@ -249,6 +263,8 @@ def _bound_safe(E, hb, e, depth=0):
         for pat in pats:
             if len(pat.encode()) == lit_value(e["r"]):
                 return True, "position returned by find(%r) + its byte length" % pat
+    if k == "Binary" and e["op"] == "Sub" and norm(hb["path"]) in POINTER_DIFF_REVIEWED and _is_addr(hb, e["l"]) and _is_addr(hb, e["r"]):
+        return True, "reviewed: " + POINTER_DIFF_REVIEWED[norm(hb["path"])]
     if k == "Binary" and e["op"] in ("Add", "Sub"):
         a, wa = _bound_safe(E, hb, e["l"], depth + 1)
         b, wb = _bound_safe(E, hb, e["r"], depth + 1)
@@ -260,8 +276,6 @@ def _bound_safe(E, hb, e, depth=0):
     nm = local_name(e)
     if nm:
         fn = norm(hb["path"])
-        if (fn, nm) in SLICE_EXCEPTIONS:
-            return True, "reviewed: " + SLICE_EXCEPTIONS[(fn, nm)]
         # a parameter of a private function: the bound is as safe as the argument at every call site
         r = path_res(e)
         pidx = None
@@ -391,29 +405,32 @@ def _is_some_conjunct_ok(E, fn):
 
 
 def _literal_types_ok(E):
-    """RhsValue::lex_with / RhsValues::lex_with receive only Ip, Bytes, Int: constant arguments, or `lhs_type` inside the
-    arms admitted by R04-admit"""
+    """RhsValue::lex_with / RhsValues::lex_with receive only Ip, Bytes, Int: constant arguments, or a value that the path
+    condition of the call restricts to those variants (the arms admitted by R04-admit)"""
+    import sem
     bad = []
     n = 0
+    UT = sem.enum_universe(E, "types::Type")
     for hb in E.hir_list:
         if "body" not in hb or "::tests::" in norm(hb["path"]):
             continue
-        for node, st in walk_arms(hb["body"]):
-            if node.get("k") not in ("Call", "MethodCall"):
-                continue
-            cal = norm(node.get("callee", ""))
-            if not cal.endswith("LexWith::lex_with") or "types::RhsValue" not in norm(node.get("ty", "")):
+        cs = [c for c in exprs(hb["body"], ("Call", "MethodCall"))
+              if norm(c.get("callee", "")).endswith("LexWith::lex_with") and "types::RhsValue" in norm(c.get("ty", ""))]
+        if not cs:
+            continue
+        S = sem.Sem(E, hb, inline=False)
+        for x in S.sites():
+            if not any(x.node is c for c in cs):
                 continue
             n += 1
-            a = call_args(node)[-1]
+            a = call_args(x.node)[-1]
             d = def_path(a)
             if d in ("types::Type::Ip", "types::Type::Bytes", "types::Type::Int"):
                 continue
-            if local_name(a) == "lhs_type":
-                tys = arm_variants(st, "Type")
-                if tys and set(tys) <= {"Ip", "Bytes", "Int"}:
-                    continue
-            bad.append("%s at %s" % (norm(hb["path"]), node["sp"]))
+            adm = sem.admitted_tuples(x.pc, [lambda v, x=x, a=a: S.same(v.node, v.frame, a, x.frame)], [UT])
+            if {last_seg(t[0]) for t in adm} <= {"Ip", "Bytes", "Int"}:
+                continue
+            bad.append("%s at %s" % (norm(hb["path"]), x.node["sp"]))
     return (not bad and n >= 5), ("%d literal lexer calls, all with Ip/Bytes/Int" % n if not bad else "literal lexer called with an unrestricted type: %s" % bad)
 
 
